@@ -628,7 +628,9 @@ func RunHistReuse(r *Run) {
 			}
 		}
 	}
-	stuck := schedExec(r, 6*(nops*70000/64+8)+256, pol, polNames[polKind], body)
+	schedParkCodecs = true
+	stuck := schedExec(r, 6*(nops*70000/64+8)+256+nops*64, pol, polNames[polKind], body)
+	schedParkCodecs = false
 	_ = stuck
 	_ = total
 	r.Res.Sample["history"] = trace
